@@ -697,11 +697,14 @@ impl InnerNodeManage {
     /// network), then the genuine `update_nodes_index` / `update_process_range` run.  Nodes with
     /// `valid == false` are starved (`last_active_time = 0`) and marked through the genuine
     /// `check_node_status`; the others can never time out.  An empty list leaves the manager in
-    /// its state before the first `UpdateNodes`.
+    /// its state before the first `UpdateNodes`.  With `by_timer` the nodes to be invalidated
+    /// are only left silent from now on: the started actor's own 3 s heartbeat marks them
+    /// after the genuine 15 s.
     pub fn verif_new_with_nodes(
         local_id: u64,
         nodes: Vec<(u64, Arc<String>, bool)>,
         naming_actor: Option<Addr<NamingActor>>,
+        by_timer: bool,
     ) -> Self {
         let mut s = Self::new(local_id);
         s.naming_actor = naming_actor;
@@ -716,7 +719,13 @@ impl InnerNodeManage {
                 addr,
                 sync_sender: None,
                 status: NodeStatus::Valid,
-                last_active_time: if valid { u64::MAX } else { 0 },
+                last_active_time: if valid {
+                    u64::MAX
+                } else if by_timer {
+                    now_millis()
+                } else {
+                    0
+                },
                 client_set: Default::default(),
             };
             s.all_nodes.insert(id, node);
@@ -729,7 +738,9 @@ impl InnerNodeManage {
             // `update_nodes`: is_change is set when a non-local node is new
             s.refresh_process_range();
         }
-        s.check_node_status();
+        if !by_timer {
+            s.check_node_status();
+        }
         s
     }
 
